@@ -46,38 +46,38 @@ type PropertySpec struct {
 }
 
 type finding struct {
-	Property string `json:"property"`
-	Label    string `json:"label"`
-	Harness  string `json:"harness,omitempty"`
-	Status   string `json:"status"` // known | fixed
-	Commit   string `json:"commit,omitempty"`
+	Property  string `json:"property"`
+	Label     string `json:"label"`
+	Harness   string `json:"harness,omitempty"`
+	Status    string `json:"status"` // known | fixed
+	Commit    string `json:"commit,omitempty"`
 	Signature string `json:"signature,omitempty"`
-	What     string `json:"what"`
+	What      string `json:"what"`
 }
 
 type checkCtx struct {
-	spec       *PropertySpec
-	tier       string
-	seed       int
-	eng        *gosym.Engine
-	t0         time.Time
-	work       string
-	findings   []finding
-	inconcl    []string
-	violations []string // printed VIOLATION lines
-	known      []string
-	evidence   map[string]any
-	samples    []any
-	states     int
-	transitions int
-	replayed   int
-	programs   int
+	spec          *PropertySpec
+	tier          string
+	seed          int
+	eng           *gosym.Engine
+	t0            time.Time
+	work          string
+	findings      []finding
+	inconcl       []string
+	violations    []string // printed VIOLATION lines
+	known         []string
+	evidence      map[string]any
+	samples       []any
+	states        int
+	transitions   int
+	replayed      int
+	programs      int
 	disagreements int
-	functions  map[string]bool
-	intrinsics map[string]bool
-	harnessRes []map[string]any
-	nviol      int
-	distinct   map[string]bool
+	functions     map[string]bool
+	intrinsics    map[string]bool
+	harnessRes    []map[string]any
+	nviol         int
+	distinct      map[string]bool
 }
 
 func loadFindings() []finding {
@@ -523,7 +523,6 @@ func (c *checkCtx) writeEvidence() {
 	os.MkdirAll(filepath.Join(outDir(), "evidence"), 0o755)
 	os.WriteFile(filepath.Join(outDir(), "evidence", spec.ID+".json"), b, 0o644)
 }
-
 
 // replayRego re-runs a regosym counterexample (profile.yaml + data.jsonld) through the real
 // entry point built from /repo's working tree and compares with the recorded reference verdict.
